@@ -80,6 +80,7 @@ func TestHrsim(t *testing.T) {
 		}
 		wk := newWorker(prop)
 		wk.explore(def.gen(wk.Tier == "thorough"))
+		wk.minimise(def.decode)
 		code = wk.finish()
 	}()
 	os.Exit(code)
